@@ -136,6 +136,16 @@ func TestOracleSelf(t *testing.T) {
 			}
 		}
 	}
+	// closed-form transition spectrum vs naive DFT
+	for _, tc := range [][2]int{{100, 33}, {128, 5}, {1000, 999}, {777, 0}} {
+		n, tt := tc[0], tc[1]
+		e := gen.Seq{Family: "transition", N: n, A: 1, Pos: []int{tt}}.Expand()
+		_, _, lo, amb := ref.DFTTest(e)
+		lo2, amb2 := ref.TransitionSpectrumCount(n, tt, ref.NextPow2(n), n/2-1, math.Sqrt(2.995732274*float64(n)), 1e-9)
+		if lo != lo2 || amb != amb2 {
+			t.Errorf("TransitionSpectrumCount(n=%d,t=%d) = (%d,%d), DFT reference (%d,%d)", n, tt, lo2, amb2, lo, amb)
+		}
+	}
 	// BM / rank sanity
 	if ref.BM(gen.Unpack([]byte{0x00, 0x01})) != 16 || ref.BM(make([]bool, 9)) != 0 {
 		t.Errorf("ref.BM sanity")
